@@ -43,3 +43,4 @@ package eheap
 //@ func (*ExpiryHeap).Len
 //@   trusted
 //@   noframe
+//@   ensures result == gint("n", eh) && result >= 0
